@@ -94,3 +94,35 @@ def templates():
     T["nonlocal:store_order"] = ("def f():\n    t = probe(0, a)\n    def g():\n        nonlocal t\n        t = probe(1, t + b)\n        return t\n    return (g(), t)\nlog(f())\n", AB, "True")
     for k, (src, params, pre) in T.items():
         yield "C07:" + k, SETUP + src, params, pre
+    # mixed probing: the converter decides per target whether the value must be saved first, by
+    # looking at which parts of the target are "trivial" (names, constants); every subset of the
+    # probes of a store template is therefore a separate case (the others are left unwrapped)
+    for k, (src, params, pre) in T.items():
+        if not k.startswith(("assign:", "for:attr", "for:sub")) and k not in ("aug:add:sub", "aug:add:attr", "aug:add:slice", "aug:matmul:sub", "aug:mod:subbox", "aug:add:attrbox"):
+            continue
+        for mask, vsrc in mixed_variants(src):
+            yield "C07:mixed:%s:%s" % (k, mask), SETUP + vsrc, params, pre
+
+
+def mixed_variants(src, max_probes=6):
+    """every proper, non-empty subset of the two-argument probe(i, v) calls of `src` kept; the other
+    probes are replaced by their value expression"""
+    import ast
+
+    tree = ast.parse(src)
+    ids = sorted({n.args[0].value for n in ast.walk(tree) if isinstance(n, ast.Call) and isinstance(n.func, ast.Name) and n.func.id == "probe" and len(n.args) == 2 and isinstance(n.args[0], ast.Constant)})
+    if not (2 <= len(ids) <= max_probes):
+        return
+    for m in range(1, 2 ** len(ids) - 1):
+        keep = {ids[b] for b in range(len(ids)) if m >> b & 1}
+
+        class Un(ast.NodeTransformer):
+            def visit_Call(self, node):
+                self.generic_visit(node)
+                if isinstance(node.func, ast.Name) and node.func.id == "probe" and len(node.args) == 2 and isinstance(node.args[0], ast.Constant) and node.args[0].value not in keep:
+                    return node.args[1]
+                return node
+
+        t2 = Un().visit(ast.parse(src))
+        ast.fix_missing_locations(t2)
+        yield "".join("1" if i in keep else "0" for i in ids), ast.unparse(t2) + "\n"
